@@ -269,6 +269,32 @@ func (g *Gen) CoroutineProgram() *Chunk {
 			CallSN("emit", Str("host-body-dead"), co("resume", N(hc))))
 		g.cover("co:host-function-body")
 	}
+	// many contained failures of wrap functions leave nothing behind: afterwards coroutines work as before
+	if g.R.Intn(10) == 0 {
+		n := []int{199, 201, 250, 420}[g.R.Intn(4)]
+		i, cnt := g.fresh("i"), g.fresh("cnt")
+		b.Stmts = append(b.Stmts, Local1(cnt, Num(0)),
+			&SNumFor{Var: i, Start: Num(1), Limit: Num(float64(n)), Body: Blk(
+				&SIf{Sites: make([]Site, 1), Conds: []Expr{Un("not", &EParen{X: CallN("pcall", co("wrap", Fn(nil, false, Blk(CallSN("error", &ETable{})))))})}, Blocks: []*Block{Blk(Assign1(N(cnt), Bin("+", N(cnt), Num(1))))}})},
+			CallSN("emit", Str("wrap-failures"), N(cnt)),
+			CallSN("emit", Str("after-wrap-failures"), co("resume", co("create", Fn([]string{"a"}, false, Blk(Return(Bin("*", N("a"), Num(2))))), Num(21)), Call(co("wrap", Fn(nil, false, Blk(Return(Str("w")))))))))
+		g.cover("co:many-wrap-failures")
+	}
+	// a coroutine is as deep and as wide as the main thread: 150 nested calls, 250 values at once
+	if g.R.Intn(8) == 0 {
+		deepf, wide := g.fresh("deepf"), g.fresh("wide")
+		b.Stmts = append(b.Stmts,
+			&SLocalFunc{Name: deepf, F: &Func{Params: []string{"n"}, Body: Blk(
+				&SIf{Sites: make([]Site, 1), Conds: []Expr{Bin("==", N("n"), Num(0))}, Blocks: []*Block{Blk(Return(co("yield", Str("bottom"))))}},
+				Local([]string{"p", "q"}, N("n"), Bin("*", N("n"), Num(2))),
+				Return(Bin("+", Call(N(deepf), Bin("-", N("n"), Num(1))), Bin("-", N("q"), Bin("*", N("p"), Num(2))))))}},
+			Local1(wide, &ETable{}),
+			&SNumFor{Var: "i", Start: Num(1), Limit: Num(250), Body: Blk(Assign1(Idx(N(wide), N("i")), N("i")))},
+			CallSN("emit", Str("deep-coroutine"), Call(co("wrap", Fn(nil, false, Blk(Return(Call(N(deepf), Num(150)))))))),
+			CallSN("emit", Str("wide-coroutine"), CallN("select", Str("#"), Call(co("wrap", Fn(nil, true, Blk(Return(&EVararg{})))), CallN("unpack", N(wide)))),
+				CallN("select", Num(250), co("resume", co("create", Fn(nil, true, Blk(Return(co("yield", &EVararg{}))))), CallN("unpack", N(wide))))))
+		g.cover("co:deep-and-wide")
+	}
 	// resumes nested without bound end in an error, not in a dead process
 	if g.R.Intn(8) == 0 {
 		rf := g.fresh("nest")
